@@ -6,6 +6,7 @@
  *   case scen=read sched=<n,n..> plan=<...> trace=<0|1>
  *   case scen=validate ops=<V|D|F,...> plan= trace=
  *   case scen=copy tmark=<+|0...> plan= trace=
+ *   case scen=chunkreq ops=<C<i>|S<i>,...> plan= trace=
  * every read, lseek and write on the scenario's descriptors is a choice point.
  * output: R <idx> open= last= rclose= content=<blob> ...        (read)
  *         S <idx> open= steps=<op>:<ret>:<flags>;...            (validate)
@@ -65,6 +66,33 @@ static void run_one(int idx, FILE *out, void *vctx) {
                 }
                 env_enable(was);
             }
+        }
+        if(!ns) fputc('-', out);
+        zck_free(&zck);
+        finish(k, out);
+        real_close(fd);
+    } else if(!strcmp(k->scen, "chunkreq")) {
+        /* chunk requests (ops: C<i> = data of chunk i, S<i> = stored bytes of chunk i) on one context; output
+         * Q <idx> open= reqs=<op>:<ret>:<hex>;... - what a request returns with success is compared by the check */
+        int fd = tmp_file_with("xq", k->file->p, k->file->n);
+        env_role(fd, ROLE_INPUT);
+        env_enable(true);
+        zckCtx *zck = zck_create();
+        int op = zck_init_read(zck, fd);
+        fprintf(out, "Q %d open=%d reqs=", idx, op);
+        int ns = 0;
+        if(op) {
+            char *ops = strdup(k->ops), *save = NULL;
+            for(char *o = strtok_r(ops, ",", &save); o; o = strtok_r(NULL, ",", &save)) {
+                zckChunk *ch = zck_get_chunk(zck, atoi(o + 1));
+                static char tmp[65536];
+                memset(tmp, 0x5a, 4096);
+                long r = !ch ? -9 : o[0] == 'C' ? zck_get_chunk_data(ch, tmp, sizeof tmp) : zck_get_chunk_comp_data(ch, tmp, sizeof tmp);
+                fprintf(out, "%s%s:%ld:", ns++ ? ";" : "", o, r);
+                if(r > 0 && r <= (long)sizeof tmp) { for(long i = 0; i < r; i++) fprintf(out, "%02x", (unsigned char)tmp[i]); } else fputc('-', out);
+                if(r < 0 && !zck_clear_error(zck)) break;     /* a caller that goes on after a failed request, when it may */
+            }
+            free(ops);
         }
         if(!ns) fputc('-', out);
         zck_free(&zck);
